@@ -1081,6 +1081,80 @@ func ruleTabAlgOid(c *Ctx, r *Rep) {
 			r.Check(params == "curve-oid", "spki-params|"+key, c.Pos(s.pos), "the named-curve OID from the curve table (RFC 5480 2.1.1)", params)
 		}
 	}
+	// wherever key bits are put into a certificate body, the algorithm identifier is put there too (same branch)
+	pvm := c.newProv()
+	for _, fn := range c.Funcs {
+		if !strings.HasSuffix(fn.Pkg.Pkg.Path(), "generator/cert") || fn == mustSign(c) {
+			continue
+		}
+		var bits, algs []fstore
+		for _, fs := range storesIntoType(c, fn, "cert.TbsCertificate") {
+			switch {
+			case fs.whole:
+			case fs.field == "PublicKey.PublicKey.Bytes":
+				if o := strings.Join(pvm.Origins(fs.val()), " "); strings.Contains(o, "Manipulations") {
+					continue // a manipulation replaces the bits alone, on purpose (C19)
+				}
+				bits = append(bits, fs)
+			case fs.field == "PublicKey.Algorithm.Algorithm":
+				algs = append(algs, fs)
+			}
+		}
+		// a call of a function that itself stores the identifier counts as storing it
+		var algBlocks []*ssa.BasicBlock
+		for _, a := range algs {
+			algBlocks = append(algBlocks, a.st.Block())
+		}
+		for _, ci := range callsIn(fn) {
+			if g := ci.Common().StaticCallee(); g != nil && g != fn && storesSpkiAlg(c, g, 0) {
+				algBlocks = append(algBlocks, ci.Block())
+			}
+		}
+		for i, bsr := range bits {
+			ok := false
+			for _, ab := range algBlocks {
+				bb := bsr.st.Block()
+				if ab == bb || ab.Dominates(bb) || bb.Dominates(ab) {
+					ok = true
+				}
+			}
+			if !ok && len(algBlocks) > 0 {
+				// or: no successful exit can be reached from the bits without passing a store of the identifier
+				avoid := map[*ssa.BasicBlock]bool{}
+				for _, ab := range algBlocks {
+					avoid[ab] = true
+				}
+				ok = true
+				seenB := map[*ssa.BasicBlock]bool{}
+				stack := []*ssa.BasicBlock{bsr.st.Block()}
+				for len(stack) > 0 {
+					x := stack[len(stack)-1]
+					stack = stack[:len(stack)-1]
+					if seenB[x] || avoid[x] {
+						continue
+					}
+					seenB[x] = true
+					if ret, isRet := lastInstr(x).(*ssa.Return); isRet && !returnsNonNilError(ret) {
+						ok = false
+					}
+					stack = append(stack, x.Succs...)
+				}
+			}
+			r.Check(ok, sprintf("spki-complete|%s#%d", c.FuncKey(fn), i+1), c.Pos(bsr.st.Pos()), "the algorithm identifier is stored in the same branch as the key bits", sprintf("%v", ok))
+		}
+		// and the other way round: where the identifier of a key is stored, its bits are stored too (in the same
+		// branch, or by every caller before it gets here is not enough: a reused key comes through this function alone)
+		for i, a := range algs {
+			ok := false
+			for _, bsr := range bits {
+				ab, bb := a.st.Block(), bsr.st.Block()
+				if ab == bb || ab.Dominates(bb) || bb.Dominates(ab) {
+					ok = true
+				}
+			}
+			r.Check(ok, sprintf("spki-bits-with-identifier|%s#%d", c.FuncKey(fn), i+1), c.Pos(a.st.Pos()), "the key bits are stored in the same branch as the algorithm identifier", sprintf("%v", ok))
+		}
+	}
 	if len(sites) < 3 {
 		r.Undecided("floor:alg-stores", "", sprintf("only %d algorithm-identifier stores found in key handling (expected SetPrivateKey rsa/ec and MarshalPKCS8PrivateKey rsa/ec)", len(sites)))
 	}
@@ -1671,4 +1745,22 @@ func curveNameOidsFromTable(c *Ctx, ev *evaluator, m *ssa.Global, curvesG []*ssa
 		return nil, "no store into " + m.Name() + " in a package initialiser"
 	}
 	return out, ""
+}
+
+// storesSpkiAlg: g, or a module function it calls (three levels), stores the algorithm identifier of a certificate body's key.
+func storesSpkiAlg(c *Ctx, g *ssa.Function, d int) bool {
+	if g == nil || d > 3 || !c.InModule(g) || g.Blocks == nil {
+		return false
+	}
+	for _, fs := range storesIntoType(c, g, "cert.TbsCertificate") {
+		if !fs.whole && fs.field == "PublicKey.Algorithm.Algorithm" {
+			return true
+		}
+	}
+	for _, ci := range callsIn(g) {
+		if h := ci.Common().StaticCallee(); h != nil && h != g && storesSpkiAlg(c, h, d+1) {
+			return true
+		}
+	}
+	return false
 }
